@@ -27,3 +27,32 @@ Definition vdiv := vzip (F:=F) ndiv.
 Definition add_bias_row (x : vec) : vec := n1 :: x.
 Definition add_bias_mat (X : mat) : mat := map (cons n1) X.
 End GenPrelude.
+
+(* ---- vocabulary of the window nodes (nodes/reservoirs/nvar.py, nodes/delay.py, nodes/concat.py) ---- *)
+Section GenWindows.
+Context {F : Type} `{Num F}.
+Notation vec := (list F).
+Notation mat := (list (list F)).
+
+(* np.roll(A, 1, axis=0): the last row comes first *)
+Definition roll1 (A : mat) : mat := match A with [] => [] | _ => last A [] :: removelast A end.
+(* A[0] = x *)
+Definition set_row0 (A : mat) (x : vec) : mat := match A with [] => [] | _ :: A' => x :: A' end.
+(* A[::s, :] : rows 0, s, 2s, ...  (k = distance to the next selected row) *)
+Fixpoint take_every_from {A} (s k : nat) (l : list A) : list A :=
+  match l with
+  | [] => []
+  | a :: l' => match k with O => a :: take_every_from s (s - 1) l' | S k' => take_every_from s k' l' end
+  end.
+Definition take_every {A} (s : nat) (l : list A) : list A := take_every_from s 0 l.
+(* out[:len(v)] = v  and  out[k:] = v  on a 1-column array (numpy requires the shapes to agree: see the side conditions of the
+   equality lemmas) *)
+Definition vset_prefix (out v : vec) : vec := v ++ skipn (length v) out.
+Definition vset_from (out : vec) (k : nat) (v : vec) : vec := firstn k out ++ v.
+(* np.prod(lin[idx], axis=1): one product of selected components per index tuple *)
+Definition gather_prod (lin : vec) (idx : list (list nat)) : vec :=
+  map (fun c => fold_right nmul n1 (map (fun i => nth i lin n0) c)) idx.
+(* collections.deque(maxlen=m): appendleft drops the right end when full; pop takes the right end *)
+Definition dq_appendleft (m : nat) (buf : mat) (x : vec) : mat := firstn m (x :: buf).
+Definition dq_pop (buf : mat) : vec * mat := (last buf [], removelast buf).
+End GenWindows.
